@@ -37,6 +37,7 @@ inductive Edit (α : Type) where
 
 section edit
 variable {α : Type} [Add α] [Sub α] [Mul α] [Div α] [OfNat α 0] [OfNat α 1] [NatCast α] [DecidableEq α]
+  [LT α] [DecidableLT α]
 
 def setAt {β : Type} (l : List β) (i : Nat) (f : β → β) : List β :=
   l.zipIdx.map (fun p => if p.2 = i then f p.1 else p.1)
@@ -69,17 +70,19 @@ def runEdits (sq : α → α) (needs : Bool) : List (Edit α) → BV α → Exce
 
 end edit
 
-/-! ### `from_numpy` with the mean and deviation numpy actually delivers (finding D26) and its repair
+/-! ### `from_numpy` with the mean and deviation numpy actually delivers (defect D26 and its fix)
 
 In floating point `numpy.nanmean` / `numpy.nanstd` return SOME value near the exact one: `mu` and `sd` below
-are arbitrary functions of the observed values.  `fromNumpyColWith` is the code as it is with them,
-`fromNumpyColFix` the proposed repair: a trait whose observed values are all EQUAL (`max == min`, exact
-comparisons) gets that value as location and scale 1, whatever `mu` and `sd` evaluate to. -/
+are ARBITRARY functions of the observed values.  `fromNumpyColWith` is the code as it is (with the `const` guard
+of the fix of D26: a trait whose observed values are all EQUAL — `fmin.reduce == fmax.reduce`, exact
+comparisons of the values themselves — gets that value as location and scale 1, whatever `mu` and `sd`
+evaluate to); `fromNumpyColWithPrerepair` is the code before the fix.  With the exact mean and deviation
+`fromNumpyColWith` IS `fromNumpyCol` (`C15.from_numpy_with_exact`). -/
 section rounding
 variable {α : Type} [Add α] [Sub α] [Mul α] [Div α] [OfNat α 0] [OfNat α 1] [NatCast α] [DecidableEq α]
   [LT α] [DecidableLT α]
 
-def fromNumpyColWith (mu sd : List α → α) (c : Col α) : Trait α :=
+def fromNumpyColWithPrerepair (mu sd : List α → α) (c : Col α) : Trait α :=
   match present c with
   | [] => { mat := c.map (fun _ => none), loc := none, scale := none }
   | a :: l =>
@@ -87,16 +90,50 @@ def fromNumpyColWith (mu sd : List α → α) (c : Col α) : Trait α :=
     let scale := guardScale (sd (a :: l))
     { mat := c.map (standardise (some loc) (some scale)), loc := some loc, scale := some scale }
 
-def fromNumpyColFix (mu sd : List α → α) (c : Col α) : Trait α :=
+def fromNumpyColWith (mu sd : List α → α) (c : Col α) : Trait α :=
   match present c with
   | [] => { mat := c.map (fun _ => none), loc := none, scale := none }
   | a :: l =>
-    if maxL a l = minL a l then
+    if minL a l = maxL a l then
       { mat := c.map (standardise (some (minL a l)) (some 1)), loc := some (minL a l), scale := some 1 }
     else
       let loc := mu (a :: l)
       let scale := guardScale (sd (a :: l))
       { mat := c.map (standardise (some loc) (some scale)), loc := some loc, scale := some scale }
+
+/-- `DenseScaledMatrix.rescale` with the mean and deviation numpy delivers (as of the fix of D26) -/
+def rescaleColWith (mu sd : List α → α) (t : Trait α) : Trait α :=
+  let out := scaledUnscaleCol t
+  match present out with
+  | [] => { mat := out.map (fun _ => none), loc := none, scale := none }
+  | a :: l =>
+    if minL a l = maxL a l then
+      { mat := out.map (transformEntry (some (minL a l)) (some 1)), loc := some (minL a l), scale := some 1 }
+    else
+      let loc := mu (a :: l)
+      let scale := guardScale (sd (a :: l))
+      { mat := out.map (transformEntry (some loc) (some scale)), loc := some loc, scale := some scale }
+
+/-! #### histories under any rounding
+
+The four copy-on-manipulation methods are literally `from_numpy(edit(self.unscale()))` (for the exact
+`F = fromNumpyCol sq` that is `applyOp`: `C15.applyOpWith_exact`).  `applyOpWith F` is the same with an
+ARBITRARY standardiser `F` of one column in the place of `from_numpy`'s — in particular
+`fromNumpyColWith mu sd` for whatever `numpy.nanmean` / `numpy.nanstd` deliver. -/
+
+def fromNumpyF (F : Col α → Trait α) (cols : List (Col α)) (taxa : List Nat) : BV α :=
+  { traits := cols.map F, taxa := taxa }
+
+def applyOpWith (F : Col α → Trait α) (op : Op α) (b : BV α) : Except Err (BV α) :=
+  match applyRaw op (unscale b, b.taxa) with
+  | .ok r => .ok (fromNumpyF F r.1 r.2)
+  | .error e => .error e
+
+def runWith (F : Col α → Trait α) : List (Op α) → BV α → Except Err (BV α)
+  | [], b => .ok b
+  | op :: ops, b => match applyOpWith F op b with
+    | .ok b' => runWith F ops b'
+    | .error e => .error e
 
 end rounding
 
@@ -136,6 +173,7 @@ def bcast (f : Option α → Option α → Option α) (a v : Arr α) : Arr α :=
   List.zipWith (fun c p => c.map (fun x => f x (p.head?.getD none))) a v
 
 variable [Add α] [Sub α] [Mul α] [Div α] [OfNat α 0] [OfNat α 1] [NatCast α] [DecidableEq α]
+  [LT α] [DecidableLT α]
 
 /-- `1.0 / v` -/
 def recipV (v : Arr α) : Arr α := v.map (fun p => p.map orecip)
@@ -166,8 +204,9 @@ def exec (sq : α → α) (h : Heap α) : Step α → Heap α × Nat
   | .rescale inplace =>
       let (h1, oi) := h.work h.mat (!inplace)
       let un := scaleShift (h1.get oi) (h1.get h1.loc) (h1.get h1.scale)
-      let newLoc : Arr α := un.map (fun c => [nanmean c])
-      let newScale : Arr α := un.map (fun c => [(nanstd sq c).map guardScale])
+      -- new_location / new_scale with the `const` guard of the fix of D26 (`fitLoc` / `fitScale`)
+      let newLoc : Arr α := un.map (fun c => [fitLoc c])
+      let newScale : Arr α := un.map (fun c => [fitScale sq c])
       let h2 := h1.put oi (centreScale un newLoc newScale)
       if inplace then
         let (h3, li) := h2.alloc newLoc
